@@ -468,7 +468,7 @@ Proof.
     { destruct vs as [|a t]; [cbn in El; discriminate|].
       assert (Hin : In a (dedup (a :: t))) by (apply dedup_In; left; reflexivity).
       destruct (dedup (a :: t)); [destruct Hin | cbn [length]; lia]. }
-    lia.
+    unfold vresources, resources, vertex, res in *. lia.
 Qed.
 
 (* ---------------------------------------------------------------------------------------------- *)
